@@ -168,6 +168,18 @@ CHECKS = {
     design_ref="DESIGN.md section 5, C15",
     note="Trusted: as C09; int() of entity values modelled for ASCII digits; is_visible with ASCII lower-casing. No axioms.",
     technique="Coq proof (subsequence by induction on token-stream length of the tree) + correspondence on all option combinations + oracle"),
+ "C18": dict(
+    category="proof",
+    text="Theorems (Coq): every property setter of every node class, regenerated from /repo's source on every run as an effect program, "
+         "is atomic - on no execution path (any call may raise) does a store to the object precede a possible raise; all setters the "
+         "property names are present; over every sequence of value/quotes assignments an attribute whose value has whitespace has "
+         "quotes. Oracle on the implementation: every settable attribute x valid/invalid catalogues x value types x sequences: "
+         "rejection leaves vars() unchanged, acceptance renders the assigned text and nested markup is navigable, whitespace values "
+         "are rendered quoted. 'Renders the assigned text exactly' rests on C01's round trip (validated, not proved).",
+    design_ref="DESIGN.md section 5, C18",
+    note="Trusted: the AST-to-effect translator (fail-closed; any call except bool/isinstance/len may raise, attribute reads pure); "
+         "the trace semantics of the effect language (over-approximates Python's). No axioms.",
+    technique="Coq: verified-by-computation atomicity checker over generated setter programs + state-machine invariant proof + setter oracle"),
 }
 
 NOT_YET = {}
